@@ -302,7 +302,17 @@ def run(ctx: Ctx) -> None:
     # R03.2 link guard -------------------------------------------------------------------------
     for f, c, operand, kind in link_sinks:
         link_target = c.args[-1] if c.args else None
-        facts = q.facts_at(f, c)
+        facts = list(q.facts_at(f, c))
+        # the guard may be written as an early exit (`if not contained(...): raise` in front of the creation): a dominating test one of whose edges
+        # cannot reach the creation says, by its other outcome, what holds there
+        cfg_g = cfg_of(f.node)
+        cn_g = q.node_for(f, c)
+        for tn in cfg_g.nodes:
+            if tn.kind == "test" and cfg_g.dominates(tn, cn_g) and not any(tn.ast is cd for cd, _ in facts):
+                for pol_ in (True, False):
+                    e_ = next((s_ for s_ in tn.succ if s_.kind == ("true" if pol_ else "false")), None)
+                    if e_ is not None and not cfg_g.reaches(e_, cn_g):
+                        facts += q.atoms(tn.ast, not pol_)
         good = False
         resolving = False
         for cond, pol in facts:
@@ -331,7 +341,9 @@ def run(ctx: Ctx) -> None:
                 # other polarity raises
                 for tn in cfg_of(f.node).nodes:
                     if tn.kind == "test" and any(x is cond for x in ast.walk(tn.ast)):
-                        fe = next((s for s in tn.succ if s.kind == "false"), None)
+                        # the edge on which the check has FAILED (false edge of `if check:`, true edge of `if not check:`)
+                        failed_pol = next((p_ for p_ in (False, True) if any(a_ is cond and not ap_ for a_, ap_ in q.atoms(tn.ast, p_))), False)
+                        fe = next((s for s in tn.succ if s.kind == ("true" if failed_pol else "false")), None)
                         if fe is not None and q.branch_always_raises(cfg_of(f.node), fe):
                             good = True
                             resolving = resolving or attr_tail(cond) == "is_path_contained"
@@ -506,11 +518,24 @@ def r03_4(ctx: Ctx, taint: Taint, closure, sinks, link_sinks, roots) -> None:
                     # Accept when every path from the definition of the sink's path variable to the sink passes the check
                     # or the true edge of an isinstance(<same variable>, MemIO) test.
                     roots_op0 = [n.id for n in ast.walk(operand) if isinstance(n, ast.Name)]
-                    mem_edges = [n for n in cfg.nodes if n.kind == "true" and isinstance(n.ast, ast.Call) and dotted(n.ast.func) == "isinstance"
-                                 and len(n.ast.args) == 2 and isinstance(n.ast.args[0], ast.Name) and n.ast.args[0].id in roots_op0 and "MemIO" in norm(n.ast.args[1])]
-                    mem_edges += [n for n in cfg.nodes if n.kind == "false" and isinstance(n.ast, ast.UnaryOp) and isinstance(n.ast.op, ast.Not)
-                                  and isinstance(n.ast.operand, ast.Call) and dotted(n.ast.operand.func) == "isinstance" and len(n.ast.operand.args) == 2
-                                  and isinstance(n.ast.operand.args[0], ast.Name) and n.ast.operand.args[0].id in roots_op0 and "MemIO" in norm(n.ast.operand.args[1])]
+                    def mem_pol(e: ast.AST, at, depth: int = 2):
+                        """True: `e` true means the output is a MemIO; False: `e` true means it is not; None: says nothing about it"""
+                        if isinstance(e, ast.Call) and dotted(e.func) == "isinstance" and len(e.args) == 2 and isinstance(e.args[0], ast.Name) and e.args[0].id in roots_op0 \
+                                and "MemIO" in norm(e.args[1]):
+                            return True
+                        if isinstance(e, ast.UnaryOp) and isinstance(e.op, ast.Not):
+                            v = mem_pol(e.operand, at, depth)
+                            return None if v is None else (not v)
+                        if isinstance(e, ast.Name) and depth > 0:
+                            d_ = q._named_condition(f, e.id, at)  # a condition that was given a name (`on_disk = not isinstance(x, MemIO)`)
+                            return mem_pol(d_, at, depth - 1) if d_ is not None else None
+                        return None
+                    mem_edges = []
+                    for n in cfg.nodes:
+                        if n.kind in ("true", "false") and n.ast is not None and n.owner is not None:
+                            mp = mem_pol(n.ast, n.owner)
+                            if mp is not None and ((n.kind == "true") == mp):
+                                mem_edges.append(n)
                     defs = [q.node_for(f, d) for nm in roots_op0 for d in [x for x in walk(f.node) if isinstance(x, ast.Assign)
                                                                           and any(isinstance(t, ast.Name) and t.id == nm for t in x.targets)]]
                     if not defs or not mem_edges or any(cfg.reaches(d, cn, avoid=[kn] + mem_edges) for d in defs):
